@@ -236,9 +236,34 @@ def r4_slice_optionals(ctx, F):
     ctx.floor("C06.R4", "second-colon tests in the slice parser", n, 1)
 
 
+def r5_dedent_matches_level(ctx, F):
+    """block structure: a line that dedents closes blocks only down to an indentation level that is on the stack - the
+    Dedent tokens are emitted only after the new indentation was found EQUAL to an open level (a dedent to a column
+    between two levels is "unindent does not match any outer indentation level" in the reference grammar; accepting it
+    attaches the line to the wrong block)"""
+    from kern import bool_local_edges
+    f = F.one(r"lexer::Lexer::<'a>::calculate_indent$")
+    ded = [st for st in f.stmts if st.kind.endswith("lexer::Token::Dedent") and st.bb not in f.cleanup]
+    if not ded:
+        ctx.bad("C06.R5", "dedent:anchor", "anchor-missing: emission of Token::Dedent in calculate_indent", fn=f)
+        return
+    eqs = [st for st in f.stmts if st.kind == "binop Eq" and st.bb not in f.cleanup and "const" not in st.ops[0]
+           and (len(st.ops) < 2 or st.ops[1].strip() == "usize")]
+    edges = set()
+    for e in eqs:
+        edges |= set(bool_local_edges(f, e.lhs, "true"))
+    for d in ded:
+        ctx.check(bool(edges) and any(f.edge_dominates(e, d.bb) for e in edges), "C06.R5", "dedent-after-level-equality",
+                  "Dedent tokens are emitted only after `level == indent` held for an open level",
+                  "calculate_indent can emit Dedent tokens without having found the new indentation equal to an open "
+                  "level: a line indented between two open blocks is accepted and attached to the shallower block, "
+                  "where the reference grammar rejects it", fn=f, line=d.line)
+
+
 def run(ctx):
     F = ctx.facts("core")
     r4_slice_optionals(ctx, F)
+    r5_dedent_matches_level(ctx, F)
     cmp_pw = r1(ctx, F)
     r2(ctx, F, cmp_pw)
     r3(ctx, F)
